@@ -134,8 +134,25 @@ def main(tier):
     # (5) pairing of nesting actions: every Nest is pushed together with exactly one nesting marker, and a popped marker yields exactly one Parent
     nest = [a for a in rules.aggregates(prog, "crate::Action") if a["variant"] == "Nest" and a["fn"] == HK]
     parent = [a for a in rules.aggregates(prog, "crate::Action") if a["variant"] == "Parent" and a["fn"] == HK]
-    markers = [a for a in rules.aggregates(prog, "either::Either") if a["variant"] == "Right" and a["fn"] == HK]
-    run.ob("pairing", "exactly one site builds the nesting marker Either::Right(..)", len(markers) == 1, key="pairing|nesting marker built at %d sites" % len(markers), nontrivial="marker")
+    # the nesting marker, by role: an element of the work stack (the vector the flattening loop pops) that carries no node - built from nothing or from field-less
+    # marker structs only (Either::Right(NestingLevelMarker) today; a dedicated enum variant such as StackItem::LevelEnd is the same thing)
+    calls0 = [(bi, t, rules.callee_name(t["callee"])) for bi, t in prog.calls(h)]
+    stack_tys = {prog.tys(t["callee"]["args"][0]) for bi, t, n in calls0 if n == "alloc::vec::Vec::<T, A>::pop" and t["callee"].get("args") and isinstance(t["callee"]["args"][0], int)}
+    stack_adts = {s_.split("<", 1)[0] for s_ in stack_tys} - {"crate::ActionStream", "crate::Action"}
+
+    def carries_nothing(a):
+        for o in a["stmt"]["rv"].get("ops", []):
+            if o["k"] not in ("copy", "move"):
+                continue
+            ty = prog.ty(h["mir"]["locals"][o["place"]["l"]]["ty"]) if not o["place"]["p"] else None
+            adt = prog.adts.get(ty.get("path")) if ty and ty.get("path") else None
+            if not (adt and adt["kind"] == "struct" and not adt["variants"][0]["fields"]):
+                return False
+        return True
+    markers = [a for adt_ in sorted(stack_adts) for a in rules.aggregates(prog, adt_) if a["fn"] == HK and carries_nothing(a)]
+    MARK = {(a["stmt"]["rv"].get("adt"), a["variant"]) for a in markers}
+    run.ob("pairing", "exactly one site builds the nesting marker (a node-less element of the work stack)", len(markers) == 1, key="pairing|nesting marker built at %d sites" % len(markers),
+           detail={"stack element types": sorted(stack_tys)}, nontrivial="marker")
     if len(nest) == 1 and len(markers) == 1:
         run.ob("pairing", "the marker push and the Nest action are control-equivalent (one marker per Nest, unconditionally)", cfg.control_equivalent(nest[0]["bb"], markers[0]["bb"]),
                key="pairing|Nest and its nesting marker are not pushed together on every path", detail={"nest_bb": nest[0]["bb"], "marker_bb": markers[0]["bb"]}, nontrivial="nest-marker", sample=True)
@@ -159,7 +176,7 @@ def main(tier):
            key="stack|initial work stack is not nodes.into_iter().map(..).rev().collect()", detail=[sorted(map(str, org(c[1], 0))) for c in collects], nontrivial="init-rev", sample=True)
     pops = [c for c in calls if c[2] == "alloc::vec::Vec::<T, A>::pop"]
     exts = [c for c in calls if c[2].endswith("Extend<T>>::extend")]
-    mpush = [c for c in calls if c[2] == "alloc::vec::Vec::<T, A>::push" and any(x[0] == "agg" and x[1] == "either::Either" for x in org(c[1], 1))]
+    mpush = [c for c in calls if c[2] == "alloc::vec::Vec::<T, A>::push" and any(x[0] == "agg" and (x[1], x[2]) in MARK for x in org(c[1], 1))]
     if run.ob("stack", "one extend (children), one marker push", len(exts) == 1 and len(mpush) == 1, key="stack|children extend / marker push sites: %d/%d" % (len(exts), len(mpush))):
         e, m = exts[0], mpush[0]
         same_stack = lambda t: any(x[0] == "call" and x[1].endswith("Iterator::collect") and x[2] == init[0][0] for x in org(t, 0)) if init else False
@@ -233,6 +250,8 @@ def main(tier):
         for k, f2 in prog.fns.items():
             if "mir" not in f2 or f2.get("impl_derived"):
                 continue
+            if not any(k == pk or k.startswith(pk + "::{closure") for pk, _ in apops):
+                continue        # only kind tests in the function that drops actions (and its closures) can guard the drop
             bodies = [f2["mir"]] + list(f2.get("promoted") or [])
             for body in bodies:
                 for blk in body["blocks"]:
